@@ -1,7 +1,7 @@
 (* Props/C02.v — stored individuals carry the true fitness of their genome; history is immutable.  History machine, every
    accepted event stream (any number of demes, generations, evaluations). *)
 From Coq Require Import ZArith Bool List.
-From HV Require Import Ord Select SelectFacts Hist HistFacts.
+From HV Require Import Ord Select SelectFacts Hist HistFacts Pop PopFacts.
 From HV Require Import RealTraces.
 Import ListNotations.
 
@@ -34,6 +34,20 @@ Proof.
     intros [= <-]. exists []. simpl. now rewrite app_nil_r.
 Qed.
 Print Assumptions C02_log_is_append_only.
+
+(* the mechanisms that keep fitness values true inside the engines (pyhms/core/population.py, de.py), for ANY objective f:
+   update_genome invalidates exactly the rows whose genome changed; evaluate asks the problem exactly for the invalidated rows and
+   afterwards every row carries f of its own genome; a DE / SHADE trial keeps its parent's fitness only for an identical genome *)
+Theorem C02_update_then_evaluate_true {G F} (geq : G -> G -> bool) (f : G -> F) (p : list (@row G F)) new :
+  (forall a b, geq a b = true <-> a = b) -> Forall (well_valued f) p -> Forall (fun r => snd r = Some (f (fst r))) (evaluate f (update_genome geq p new)).
+Proof. intros _. exact (mutate_then_evaluate_true geq f p new). Qed.
+Print Assumptions C02_update_then_evaluate_true.
+Theorem C02_de_trial_keeps_only_identical {G F} (geq : G -> G -> bool) (f : G -> F) (parents : list (@row G F)) new :
+  (forall a b, geq a b = true <-> a = b) -> Forall (well_valued f) parents -> Forall (well_valued f) (de_trial geq parents new).
+Proof. intros E. exact (de_trial_valued geq E f parents new). Qed.
+Print Assumptions C02_de_trial_keeps_only_identical.
+Theorem C02_unchanged_rows_not_reevaluated {G F} (f : G -> F) (r : @row G F) v : snd r = Some v -> eval_row f r = r.
+Proof. exact (unchanged_rows_not_reevaluated f r v). Qed.
 
 (* non-vacuity: a deme evaluates two genomes, records them, breeds one new individual and carries one over *)
 Example C02_example : exists s, hrun hinit [HBegin true None true; HEval 0 1 50; HEval 0 2 30; HGen 0 [Fresh 0; Fresh 1]; HEval 0 3 10; HGen 0 [Carried 1; Fresh 0]] = Some s /\
